@@ -114,6 +114,8 @@ namespace ref
       bool loop = false;
       bool uses_discard = false;
       std::vector< event > evs;
+      struct rawact { int vid; std::size_t b, e; };
+      std::vector< rawact > raw;       // every action invocation in evaluation order, backtracked ones included (never truncated)
       int depth = 0;
       std::set< std::pair< std::pair< int, std::size_t >, std::size_t > > stack;
 
@@ -224,6 +226,7 @@ namespace ref
          const int k = kind_in( vid, c.fam );
          if( k == A_NONE || k >= A_CHANGE_STATE || !c.act ) return ok( e );
          event a{ E_ACT, vid, b, e, depth, c.la > 0, c.act, c.fam, c.cfam, c.scope, false };
+         if( raw.size() < 200000 ) raw.push_back( { vid, b, e } );
          if( k == A_VETO || k == A_VETO0 ) {
             if( veto_pred( vid, b, e, salt ) ) return fail( b );
          }
